@@ -39,7 +39,9 @@ from picosim import core, registry    # noqa: E402
 
 
 def log(msg):
-    print(msg, flush=True)
+    # (the same bytes under every locale: messages quote cart contents)
+    print(str(msg).encode('ascii', 'backslashreplace').decode('ascii'),
+          flush=True)
 
 
 def check_repo_import():
